@@ -118,6 +118,9 @@ _tmp = None
 _prev = None
 
 
+_refit = None
+
+
 def run_case(case):
     from ctparse.nb_scorer import train_naive_bayes, NaiveBayesScorer, save_naive_bayes
 
@@ -198,6 +201,18 @@ def run_case(case):
                     v.append(viol({"kind": "batch_position_changes_prediction"}, "train X={} y={}: document {} at position {} of a batch of {} -> {} expected {}".format(X, y, q, pos, len(batch), tuple(gb), exp), exp, tuple(gb)))
                     break
             if v:
+                break
+    # fitting an already fitted pipeline object again: the model is that of the NEW training set, nothing of the old one survives
+    if not v:
+        global _refit
+        if _refit is None:
+            _refit = train_naive_bayes([["zz", "yy", "xx"], ["yy"], ["ww", "zz"]], [True, False, True])
+        _refit.fit(X, [1 if yy else -1 for yy in y])
+        for q in _q[tier][:: max(1, len(_q[tier]) // 8)] + [X[0]]:
+            got = _refit.predict_log_proba([q])[0]
+            exp = ref.log_proba(q)
+            if not (max(abs(got[0] - exp[0]), abs(got[1] - exp[1])) <= TOL):
+                v.append(viol({"kind": "refit_keeps_old_state"}, "pipeline fitted before on another training set, fitted again on X={} y={}: query {} -> {} expected {}".format(X, y, q, tuple(got), exp), exp, tuple(got)))
                 break
     # score composition on a few documents x (covered, len) pairs
     if not v:
